@@ -19,7 +19,7 @@ Class Ops (T : Type) := {
 }.
 
 Section Derived.
-Context {T : Type} {O : Ops T}.
+Context {T : Type} {OT : Ops T}.
 Definition sgtb (a b : T) : bool := sltb b a.
 Definition sgeb (a b : T) : bool := sleb b a.
 Definition sneb (a b : T) : bool := negb (seqb a b).
